@@ -125,18 +125,18 @@ func cliRun(src, mode string, alloc int) (stdout, stderr string, failed, ok bool
 		cliHome = filepath.Join(base, fmt.Sprintf("clihome-%d", os.Getpid()))
 		_ = os.MkdirAll(cliHome, 0o700)
 	})
-	f, err := os.CreateTemp(cliHome, "prog*.ego")
-	if err != nil {
+	// the same file name for every run: the name appears in ego's error
+	// report, and the runs of one case are compared verbatim
+	name := filepath.Join(cliHome, "prog.ego")
+	if err := os.WriteFile(name, []byte(src), 0o644); err != nil {
 		return "", "", false, false
 	}
-	defer os.Remove(f.Name())
-	_, _ = f.WriteString(src)
-	f.Close()
+	defer os.Remove(name)
 	args := []string{"run", "--types", mode, "--optimize", "0"}
 	if alloc > 0 {
 		args = append(args, "--symbol-allocation", fmt.Sprint(alloc))
 	}
-	args = append(args, f.Name())
+	args = append(args, name)
 	cmd := exec.Command(bin, args...)
 	cmd.Env = append(os.Environ(), "HOME="+cliHome, "EGO_PATH="+cliHome)
 	var so, se strings.Builder
